@@ -18,6 +18,10 @@ def opCanon : List String → String
   | [a] => withS a fun s => encS (canon s)
   | _ => "bad-op"
 
+def opLower : List String → String
+  | [a] => withS a fun s => encS (lower s)
+  | _ => "bad-op"
+
 def opCanonV : List String → String
   | [a] => withS a fun s => match canonicalizeName s true with
       | some r => "ok " ++ encS r
@@ -114,7 +118,7 @@ def opAssemble : List String → String
   | _ => "bad-op"
 
 def ops : List (String × (List String → String)) :=
-  [ ("name.canon", opCanon), ("name.canonv", opCanonV), ("name.isnorm", opIsNorm), ("name.all", opAll),
+  [ ("name.canon", opCanon), ("str.lower", opLower), ("name.canonv", opCanonV), ("name.isnorm", opIsNorm), ("name.all", opAll),
     ("s.name.fold", opSpecFold), ("s.name.valid", opSpecValid), ("s.name.normalized", opSpecNormalized), ("s.name.all", opSpecAll),
     ("tag.parse", opTagParse), ("tag.pair", opTagPair), ("whl.parse", opWheel), ("sdist.parse", opSdist),
     ("s.whl.assemble", opAssemble) ]
